@@ -37,6 +37,11 @@ class ResolveSurface(core.Surface):
     def model(self, rn, x):
         return core.model_res(rn.call(101, [x["expr"], x["params"], x["mappings"], x["conds"]]))
 
+    def agree(self, x, i, m):
+        if i[0] == "EXC" and m[0] == "EXC":
+            return True    # ill-typed input: WHICH exception comes first is an evaluation-order artefact; only ok-vs-error is compared
+        return super().agree(x, i, m)
+
     def tags(self, x):
         t = {f.replace("Fn::", "").lower() for f in resgen.function_names(x["expr"])}
         if _has_nonstring_leaf(x["mappings"]):
